@@ -18,7 +18,7 @@ META = {
     "required": ["monitor:type-resolve", "monitor:hugr-resolve", "monitor:wire-invariance", "monitor:model-invariance",
                  "monitor:idempotence", "feature:partial-registry", "feature:empty-registry",
                  "feature:missing-def", "feature:opaque-inside-opaque-args", "feature:resolved-op",
-                 "feature:unresolved-op", "feature:polyfunc"],
+                 "feature:unresolved-op", "feature:polyfunc", "feature:perturbed-runtime-reqs"],
     "reach": ["hugr.tys:Opaque.resolve", "hugr.ops:Custom.resolve", "hugr.hugr.base:Hugr.resolve_extensions",
               "hugr.tys:Sum.resolve", "hugr.tys:FunctionType.resolve", "hugr.ext:ExtensionRegistry.get_extension"],
     "assumptions": [
@@ -275,6 +275,20 @@ def check_hugr_case(ctx, case, stratum="hugr"):
     prog, spec = case["prog"], case["reg"]
     h0 = Interp().run(prog)
     s = h0.to_json()
+    if case.get("reqs_seed") is not None:
+        # a loaded document need not carry exactly [own extension] as an op's runtime requirements
+        # (other writers add more, fewer or none): perturb them before loading
+        import random
+
+        rr = random.Random(case["reqs_seed"])
+        doc = json.loads(s)
+        for nd in doc["nodes"]:
+            if nd["op"] == "Extension" and rr.random() < 0.6:
+                own = nd["extension"]
+                nd["signature"]["runtime_reqs"] = rr.choice(
+                    [[], [own, "other.ext"], ["other.ext"], ["z.ext", own, "a.ext"], [own, own]])
+                ctx.feat("feature:perturbed-runtime-reqs")
+        s = json.dumps(doc)
     h = Hugr.load_json(s)
     exts = all_exts()
     universe = {n: {"types": sorted(e.types), "ops": sorted(e.operations)} for n, e in exts.items()}
@@ -389,7 +403,8 @@ def run(ctx):
 
         universe = {e.name: {"types": sorted(e.types), "ops": sorted(e.operations)}
                     for e in [*hx.std_extensions(), hx.test_ext()]}
-        case = {"prog": gen_program(r, kind="module", budget=25), "reg": gen_registry_spec(r, universe)}
+        case = {"prog": gen_program(r, kind="module", budget=25), "reg": gen_registry_spec(r, universe),
+                "reqs_seed": f"{ctx.seed}/{i}" if i % 2 else None}
         nt = ctx.guard("hugr", case, check_hugr_case, ctx, case)
         ctx.case("hugr", case, bool(nt))
 
